@@ -150,6 +150,7 @@ func c20(r *core.Report) {
 	c20Wrapper(r)
 	c20Gate(r)
 	c20Inv(r)
+	c20PathRef(r)
 	c20TypedNil(r)
 	resetScope(r, "C20.resetscope")
 	crashPanic(r, csAll, map[string]panicExcuse{
@@ -1005,6 +1006,74 @@ func valueStoresOutsideRefBranch(p *core.Prog) string {
 		return fmt.Sprintf("only %d stores found", n)
 	}
 	return strings.Join(bad, ", ")
+}
+
+// c20PathRef: the marshallers of the document model recurse along PathItem -> Operation -> Callback
+// -> PathItem. A loaded document can hold a cycle there (a callback whose path item refers to a path
+// of the document); what ends the recursion is PathItem.MarshalYAML writing a path item that has a
+// Ref as `$ref` alone. Code that clears that Ref on a loaded document removes the stop.
+func c20PathRef(r *core.Report) {
+	p := r.Prog
+	r.RunRule("C20.pathref", "serialising a loaded document ends: (a) PathItem.MarshalYAML returns the bare reference when Ref is set, before it touches the operations (C03.refonly has the shape); (b) outside the decoders and the loader, the Ref of a PathItem is set to the empty string only under a condition that rules out a reference into the document's own paths (a value computed from strings.HasPrefix(ref, \"#/paths/\")): clearing such a reference turns a path item cycle through a callback into an endless serialisation (stack overflow, not recoverable)", 1, func() {
+		pk := p.Pkg("openapi3")
+		info := pk.TypesInfo
+		piT := p.NamedType("openapi3", "PathItem")
+		n := 0
+		for _, fd := range p.AllDecls("openapi3") {
+			if fd.Body == nil || strings.HasPrefix(fd.Name.Name, "Unmarshal") {
+				continue
+			}
+			if fd.Recv != nil {
+				if rn := core.NamedOf(info.TypeOf(fd.Recv.List[0].Type)); rn != nil && rn.Obj().Name() == "Loader" {
+					continue
+				}
+			}
+			ff := core.NewFuncFacts(p, info, fd)
+			k := 0
+			ast.Inspect(fd.Body, func(nd ast.Node) bool {
+				as, ok := nd.(*ast.AssignStmt)
+				if !ok || len(as.Lhs) != len(as.Rhs) {
+					return true
+				}
+				for i, l := range as.Lhs {
+					sel, ok := ast.Unparen(l).(*ast.SelectorExpr)
+					if !ok || sel.Sel.Name != "Ref" || core.NamedOf(info.TypeOf(sel.X)) != piT {
+						continue
+					}
+					if sv, isStr := core.ConstStr(info, as.Rhs[i]); !isStr || sv != "" {
+						continue
+					}
+					n++
+					k++
+					key := fmt.Sprintf("pathref:%s#%d", core.FuncName(fd), k)
+					good := false
+					for _, a := range core.Atoms(core.GuardsAt(info, fd.Body, as)) {
+						// the guard (or what it was computed from) tests the "#/paths/" prefix
+						var exprs []ast.Expr
+						exprs = append(exprs, a.Expr)
+						exprs = append(exprs, ff.Roots(a.Expr, false).Exprs...)
+						for _, e := range exprs {
+							ast.Inspect(e, func(m ast.Node) bool {
+								if c, ok := m.(*ast.CallExpr); ok && len(c.Args) == 2 {
+									if f := core.CalleeOf(info, c); f != nil && f.Name() == "HasPrefix" {
+										if sv, isStr := core.ConstStr(info, c.Args[1]); isStr && sv == "#/paths/" && !a.Pos {
+											good = true
+										}
+									}
+								}
+								return true
+							})
+						}
+					}
+					r.Check(good, key, p.Pos(as.Pos()), "not reached for a reference into the document's own paths", core.FuncName(fd)+" clears the reference of a path item whatever it refers to: for a path item that is reached again through a callback of its own operations (a cycle that loading and validating accept) the copy of the target's operations stays and json.Marshal / yaml.Marshal of the document never returns")
+				}
+				return true
+			})
+		}
+		if n == 0 {
+			r.Trivial("pathref:none", "-", "no code outside the decoders and the loader clears a path item's Ref")
+		}
+	})
 }
 
 // c20Inv: the post-load phase relies on "a wrapper whose resolver rejects empty wrappers has a
